@@ -33,6 +33,7 @@ def common_failures(case, r, failures):
                          "detail": str(r["mincost_bad"][:3])})
 
 
+@B.deep
 def check(case, M):
     tier = case.get("tier", "quick")
     r = B.run_case(case, M, tier)
